@@ -32,7 +32,7 @@ def main():
     wt = tempfile.mkdtemp(prefix="mutwt-", dir="/tmp")
     os.rmdir(wt)
     ok = False
-    for base in ("HEAD", "5450e19", "22a8020"):
+    for base in ("HEAD", "8bb5fbf", "5450e19", "22a8020"):
         subprocess.run(["git", "-C", "/repo", "worktree", "add", "-q", "--detach", wt, base], check=True)
         if subprocess.run(["git", "-C", wt, "apply", "--check", patch], capture_output=True).returncode == 0:
             ok = True
